@@ -985,9 +985,11 @@ def run(tier: str) -> int:
     t_e2e0 = time.time()
     budget = (520 if thorough else 32)
     for (p, src) in cases:
-        if time.time() - t_e2e0 > budget:
-            rep.notes.append(f"end-to-end loop stopped by its time budget after {stats['cases']} cases")
-            break
+        if stats["cases"] >= 120 and src != "arrangement" and time.time() - t_e2e0 > budget:
+            # (never cuts the directed arrangements nor the first 120 cases)
+            if not any("time budget" in n_ for n_ in rep.notes):
+                rep.notes.append(f"end-to-end loop: random cases skipped after the time budget ({stats['cases']} cases run so far)")
+            continue
         src_count[src] = src_count.get(src, 0) + 1
         stats["shape_sizes"][min(psize(p), 12)] = stats["shape_sizes"].get(min(psize(p), 12), 0) + 1
         runs = []
